@@ -10,6 +10,11 @@ Per-turn alphabet: committed(approved list, store fault plan) | kill-switch turn
 Settings: snapshot cadence n in {1,2,3} x cache_bust_mode in {on-apply, none} x namespaces x initial version x ctx shape
   x key-presence shape of the t4 section (every key explicit | keys missing, the section then denotes its validated
   normal form: see absent_menu).
+  store export shape + faults of the OTHER store calls (own leg, see xfault_*): the store offers only the `.w` view | offers
+                 export_state()/import_state(); every store method call other than apply_deltas that the engine makes
+                 during the apply phase of a committed turn is numbered and made to raise, one at a time and all at once
+  acting agent   (own leg, see agent_*): the turns of one history are taken by several agent ids sharing ONE state, with
+                 the orchestrator's boot hook live and the snapshots of earlier turns left in the snapshot directory
 Entry points: clematis.engine.apply.apply_changes directly, and the full run_turn with the meta-filter's
 result scripted through the orchestrator's module-level `t4_filter` seam.
 
@@ -52,6 +57,9 @@ def dkey(d):
     return "%s:%s:%s" % (d.target_kind, d.target_id, d.attr)
 
 
+_DELTA_OF = {dkey(D(i)): float(D(i).delta) for i in _IDS}
+
+
 class RecStore(InMemoryGraphStore):
     """All-or-nothing batch store that records every call and follows a scripted fault plan."""
 
@@ -63,11 +71,27 @@ class RecStore(InMemoryGraphStore):
         self.turn = None
         self.plan = ("ok",)
         self._ncalls_turn = 0
+        self.phase = False   # True while the engine is in the apply phase of a committed turn
+        self.xplan = None    # None | "all" | [k, ...]: numbers of the OTHER store calls of this turn that raise
+        self.xcalls = []     # (turn, method name, number within the turn, raised?)
+        self._xn = 0
 
-    def begin(self, turn, plan):
+    def begin(self, turn, plan, xplan=None):
         self.turn = turn
         self.plan = plan
+        self.xplan = xplan
+        self.phase = False
         self._ncalls_turn = 0
+        self._xn = 0
+
+    def _xcall(self, name):
+        """one store method call other than apply_deltas made by the engine during the apply phase"""
+        k = self._xn
+        self._xn += 1
+        fire = self.xplan == "all" or (isinstance(self.xplan, list) and k in self.xplan)
+        self.xcalls.append((self.turn, name, k, bool(fire)))
+        if fire:
+            raise EXC_TYPES[(int(self.turn or 0) + k) % len(EXC_TYPES)]("scripted %s failure" % name)
 
     def apply_deltas(self, gid, deltas):
         deltas = list(deltas)
@@ -90,6 +114,34 @@ class RecStore(InMemoryGraphStore):
         if self.plan[0] == "okquiet":
             return None  # a store that succeeds without reporting counts
         return {"edits": len(deltas), "clamps": 0}
+
+
+_REC_OWN = ("apply_deltas", "begin")
+
+
+class RecStoreX(RecStore):
+    """The recording store with the structured export/import API the snapshot writer prefers over the `.w` view.
+    Every public method the engine calls on it while `phase` is on (apply_deltas has its own scripted plan) goes
+    through `_xcall`: numbered, recorded, raising when scripted."""
+
+    def export_state(self):
+        return {"w": [[k[0], k[1], k[2], v] for k, v in sorted(self.w.items())]}
+
+    def import_state(self, st):
+        new = {(str(a), str(b), str(c)): float(v) for a, b, c, v in (st or {}).get("w", [])}
+        self.w.clear()
+        self.w.update(new)
+
+    def __getattribute__(self, name):
+        v = object.__getattribute__(self, name)
+        if name.startswith("_") or name in _REC_OWN or not callable(v) or not object.__getattribute__(self, "phase"):
+            return v
+        xcall = object.__getattribute__(self, "_xcall")
+
+        def numbered(*a, **k):
+            xcall(name)
+            return v(*a, **k)
+        return numbered
 
 
 class StoreView:
@@ -153,6 +205,109 @@ def cap_histories(entry, thorough):
         for h in itertools.product(alpha, repeat=d):
             if any(x[2][0] == "noapi" for x in h):
                 yield [list(x) for x in h]
+
+
+# ---- store export shape + faults of the other store calls ---------------------------------------------------
+# "Errors inside the store never abort the turn or skip the version bump" quantifies over the store, not over one of
+# its methods.  Which store methods the apply phase calls besides apply_deltas depends on what the store offers (the
+# snapshot writer documents: "Prefers store.export_state(), else inspects a `.w` dict"), so the store shape is a
+# dimension (settings["store"]: "plain" = `.w` view only | "exporter" = RecStoreX) and the fault points are DISCOVERED:
+# a base history is run without such faults on the exporter store, the store numbers every other method call the engine
+# makes between the meta-filter's verdict and the end of the turn (direct entry: during apply_changes), and for every
+# numbered call (turn i, k) the history is re-run with exactly that call raising, plus once with all of them raising.
+# A letter carries the plan as 4th element {"xf": [k, ...] | "all"}.  Expected behaviour on such a turn = that of the
+# same turn without the fault (call log, version +1, cadence, cache, records, nothing escapes): the statement exempts
+# no store error, and the content of the snapshot's store section is not judged.
+def xfault_alphabet(entry, thorough):
+    k1 = dkey(D(1))
+    a = [("commit", [], ("ok",)), ("commit", [1], ("ok",)), ("commit", [1], ("batchfail", [])),
+         ("commit", [1, 2], ("batchfail", [k1]))]
+    if thorough:
+        a += [("commit", [1, 2], ("ok",)), ("commit", [1], ("okquiet",))]
+    if entry == "turn":
+        a.append(("kill", [], ("ok",)))
+    return a
+
+
+def _n_ids(thorough):
+    """(cadence n, [first turn id, stride]): histories starting at turn 1 and at a cadence turn"""
+    out = []
+    for n in (1, 2, 3):
+        for ids in ([1, 1], [n, 1]):
+            if (n, ids) not in out:
+                out.append((n, ids))
+    return out
+
+
+def _shape_bust(entry, thorough):
+    """(ctx shape, cache_bust_mode) pairs of the legs below.  A cfg-only context with on-apply is left to the main legs:
+    it is the listed finding there (apply reads ctx.config only) and would only repeat itself under new signatures."""
+    out = [("both", "on-apply"), ("cfg", "none")]
+    if entry == "direct":
+        out.append(("config", "on-apply"))
+    if thorough:
+        out.append(("both", "none"))
+    return out
+
+
+def xfault_settings(entry, thorough):
+    for n, ids in _n_ids(thorough):
+        for sh, bust in _shape_bust(entry, thorough):
+            yield {"n": n, "bust": bust, "ns": "default", "ver": "41", "shape": sh, "ids": ids, "store": "exporter"}
+
+
+def xfault_histories(entry, thorough):
+    alpha = xfault_alphabet(entry, thorough)
+    for d in range(1, (3 if thorough else 2) + 1):
+        for h in itertools.product(alpha, repeat=d):
+            yield [list(x) for x in h]
+
+
+# ---- acting agent -------------------------------------------------------------------------------------------
+# "For all sequences of turns": the turns of a history need not belong to one agent.  Several agent ids share ONE state
+# (one store, one version, one snapshot directory with a state_<agent>.json each), which is how the orchestrator's
+# drivers run agents.  In this leg nothing is prepared behind the engine's back: the boot hook is live (the state does
+# not carry _boot_loaded; the snapshot directory is empty when the history starts, so the scripted initial version
+# stands) and snapshot files written by earlier turns stay where they are ("written this turn" = the acting agent's
+# file changed identity).  Agent sequences are enumerated up to renaming (restricted growth strings: A, AA, AB, AAA,
+# AAB, ABA, ABB, ABC ...).  Judged per turn exactly as everywhere else, plus: store contents after a committed turn =
+# contents before + the deltas the store accepted; on a kill-switch turn the whole snapshot directory is untouched.
+def agent_sequences(d, max_agents):
+    names = "ABCDEFGH"
+
+    def rec(prefix, used):
+        if len(prefix) == d:
+            yield prefix
+            return
+        for i in range(min(used + 1, max_agents)):
+            yield from rec(prefix + names[i], max(used, i + 1))
+    return list(rec("A", 1)) if d >= 1 else []
+
+
+def agent_alphabet():
+    k1 = dkey(D(1))
+    return [("commit", [], ("ok",)), ("commit", [1], ("ok",)), ("commit", [1, 2], ("batchfail", [k1])), ("kill", [], ("ok",))]
+
+
+def agent_histories(thorough):
+    alpha = agent_alphabet()
+    for d in range(1, (4 if thorough else 3) + 1):
+        for seq in agent_sequences(d, 3 if thorough else 2):
+            for h in itertools.product(alpha, repeat=d):
+                yield [[x[0], x[1], x[2], {"agent": a}] for x, a in zip(h, seq)]
+
+
+def agent_settings(thorough):
+    for n, ids in _n_ids(thorough):
+        for sh, bust in _shape_bust("turn", False):
+            for store in ("plain", "exporter"):
+                yield {"n": n, "bust": bust, "ns": "default", "ver": "41", "shape": sh, "ids": ids,
+                       "store": store, "boot": "live"}
+
+
+def _letter(h):
+    """history letter -> (kind, ids, plan, options)"""
+    return h[0], h[1], h[2], (h[3] if len(h) > 3 and h[3] else {})
 
 
 def turn_alphabet(max_n, with_kill):
@@ -318,8 +473,20 @@ def _count_lines(path):
         return 0
 
 
+def _dir_sig(d):
+    """identity of every file in the snapshot directory: name -> (inode, mtime_ns, size)"""
+    out = {}
+    for fn in sorted(os.listdir(d)):
+        try:
+            s = os.stat(os.path.join(d, fn))
+        except FileNotFoundError:
+            continue
+        out[fn] = (s.st_ino, s.st_mtime_ns, s.st_size)
+    return out
+
+
 def run_history(case, scratch):
-    """case: {entry, settings, history:[(kind, ids, plan)]}; returns list of (sig, what)."""
+    """case: {entry, settings, history:[(kind, ids, plan[, options])]}; returns (list of (sig, what), final, xcalls)."""
     entry, st, hist = case["entry"], case["settings"], case["history"]
     out = []
     W.reset_globals()
@@ -327,19 +494,21 @@ def run_history(case, scratch):
     ex.activate()
     old_t4 = orch_core.t4_filter
     shape_cls = "cfg-only" if st["shape"] == "cfg" else "any"
-    cap = {"cls": None}     # store capability class of the turn being judged (None = store with the batch API)
+    cap = {"cls": None}     # class of the turn being judged (None = plain turn on a store with the batch API)
+    live_boot = st.get("boot") == "live"
 
     def bad(clause, what):
         if cap["cls"]:
-            clause = "%s[store=%s]" % (clause, cap["cls"])
+            clause = "%s[%s]" % (clause, cap["cls"])
         out.append(("%s:%s:ctx-shape=%s" % (entry, clause, shape_cls),
                     "%s [entry=%s settings=%s history=%s]" % (what, entry, json.dumps(st), json.dumps(hist))))
 
+    store = None
     try:
         cfg_on, eff = _cfg_for(st, ex.snap_dir, True)
         cfg_off, _ = _cfg_for(st, ex.snap_dir, False)
         state = W.make_world("W1") if entry == "turn" else {"active_graphs": []}
-        store = RecStore()
+        store = RecStoreX() if st.get("store") == "exporter" else RecStore()
         if entry == "turn":
             # keep the graphs of W1 so T1/T2/T3 do real work
             store._graphs = state["store"]._graphs
@@ -348,26 +517,40 @@ def run_history(case, scratch):
         if st["ver"] is not None:
             state["version_etag"] = st["ver"]
         cm = _seed_cache(state)
-        state["_boot_loaded"] = True  # the boot loader is C06/C20's subject; keep the initial version as scripted
-        agent = "A"
-        snap_file = os.path.join(ex.snap_dir, "state_%s.json" % agent)
+        if not live_boot:
+            state["_boot_loaded"] = True  # the boot loader is C06/C20's subject; keep the initial version as scripted
         id0, stride = st.get("ids", [1, 1])
-        for turn, (kind, ids, plan) in ((id0 + i * stride, h) for i, h in enumerate(hist)):
+        seen_agents = []
+        for turn, h in ((id0 + i * stride, h) for i, h in enumerate(hist)):
+            kind, ids, plan, opt = _letter(h)
+            agent = str(opt.get("agent") or "A")
+            xplan = opt.get("xf")
+            snap_name = "state_%s.json" % agent
+            snap_file = os.path.join(ex.snap_dir, snap_name)
             if plan[0] == "noapi":
                 plan = ("noapi", str(plan[1]))
             else:
                 plan = tuple(plan) if plan[0] in ("ok", "okquiet") else ("batchfail", list(plan[1]))
             noapi = plan[1] if plan[0] == "noapi" else None
-            cap["cls"] = None if noapi is None else ("no-batch-api" if noapi in ("absent", "noncallable") else "none")
+            cap["cls"] = None if noapi is None else ("store=no-batch-api" if noapi in ("absent", "noncallable") else "store=none")
+            if cap["cls"] is None and xplan is not None:
+                cap["cls"] = "store-call-fault"
+            if cap["cls"] is None and seen_agents and agent not in seen_agents:
+                cap["cls"] = "agent-first-turn"     # a further agent's first turn on the shared state
+            if agent not in seen_agents:
+                seen_agents.append(agent)
             approved = [D(i) for i in ids]
-            store.begin(turn, plan)
+            store.begin(turn, plan, xplan)
             ncalls0 = len(store.calls)
+            napplied0 = len(store.applied)
+            nx0 = len(store.xcalls)
             ver0 = state.get("version_etag")
             w0 = dict(store.w)
-            for p in (snap_file, snap_file + ".meta"):
-                if os.path.exists(p):
-                    os.unlink(p)
-            snaps0 = sorted(os.listdir(ex.snap_dir))
+            if not live_boot:
+                for p in (snap_file, snap_file + ".meta"):
+                    if os.path.exists(p):
+                        os.unlink(p)
+            snaps0 = _dir_sig(ex.snap_dir)
             for ns in ("t2:semantic", "other:ns", "third:ns"):
                 cm.set(ns, ("seed", ns), "v")
             t4_lines0 = _count_lines(os.path.join(ex.log_dir, "t4.jsonl"))
@@ -385,42 +568,55 @@ def run_history(case, scratch):
             elif noapi == "nokey":
                 state.pop("store", None)
                 state["active_graphs"] = []
+
+            def _verdict(*a, **k):
+                store.phase = True      # from the meta-filter's verdict to the end of the turn = apply phase
+                return t4res
             try:
                 if entry == "direct":
+                    store.phase = True
                     res = apply_mod.apply_changes(ctx, state, t4res)
                     res_ver = res.version_etag
                 else:
-                    orch_core.t4_filter = lambda *a, **k: t4res
+                    orch_core.t4_filter = _verdict
                     tr = orch_core.run_turn(ctx, state, "apple pear")
                     res_ver = None
                     if not hasattr(tr, "line"):
                         bad("no-turn-result", "run_turn returned %r" % (tr,))
             except Exception as e:  # noqa
-                bad("exception-escapes", "turn %d raised %s: %s" % (turn, type(e).__name__, e))
+                fired = [c[1] for c in store.xcalls[nx0:] if c[3]]
+                bad("exception-escapes", "turn %d raised %s: %s%s" % (
+                    turn, type(e).__name__, e, (" (scripted store fault in %s)" % ",".join(fired)) if fired else ""))
                 break
             finally:
+                store.phase = False
                 orch_core.t4_filter = old_t4
                 if noapi is not None:
                     state["store"] = store
                     state["active_graphs"] = graphs0
             calls = [(c[2], c[3]) for c in store.calls[ncalls0:]]
             ver1 = state.get("version_etag")
+            snaps1 = _dir_sig(ex.snap_dir)
             if kind == "kill":
                 if calls:
                     bad("kill-switch:store-called", "turn %d kill switch off but store called %r" % (turn, calls))
                 if store.w != w0:
-                    bad("kill-switch:store-changed", "turn %d store changed" % turn)
+                    bad("kill-switch:store-changed", "turn %d store changed %r -> %r" % (turn, sorted(w0.items()), sorted(store.w.items())))
                 if ver1 != ver0:
                     bad("kill-switch:version-changed", "turn %d version %r -> %r" % (turn, ver0, ver1))
-                if sorted(os.listdir(ex.snap_dir)) != snaps0:
-                    bad("kill-switch:snapshot-written", "turn %d snapshot dir %r -> %r" % (turn, snaps0, sorted(os.listdir(ex.snap_dir))))
+                if sorted(snaps1) != sorted(snaps0):
+                    bad("kill-switch:snapshot-written", "turn %d snapshot dir %r -> %r" % (turn, sorted(snaps0), sorted(snaps1)))
+                elif snaps1 != snaps0:
+                    bad("kill-switch:snapshot-written", "turn %d snapshot files rewritten: %r" % (
+                        turn, sorted(k for k in snaps1 if snaps1[k] != snaps0.get(k))))
                 if _count_lines(os.path.join(ex.log_dir, "t4.jsonl")) != t4_lines0 or \
                         _count_lines(os.path.join(ex.log_dir, "apply.jsonl")) != ap_lines0:
                     bad("kill-switch:records-emitted", "turn %d emitted t4/apply records" % turn)
                 continue
             # ---- committed turn
             alts = _expected_calls(ids, plan)
-            if calls not in alts:
+            calls_ok = calls in alts
+            if not calls_ok:
                 bad("call-log", "turn %d store calls %r, expected %r" % (turn, calls, alts[0]))
             # version discipline
             try:
@@ -428,12 +624,12 @@ def run_history(case, scratch):
             except Exception:
                 exp_ver = "1"
             if ver1 != exp_ver:
-                bad("version", "turn %d version %r -> %r, expected %r" % (turn, ver0, ver1, exp_ver))
+                bad("version", "turn %d (agent %s) version %r -> %r, expected %r" % (turn, agent, ver0, ver1, exp_ver))
             if entry == "direct" and res_ver != ver1:
                 bad("version-result", "turn %d ApplyResult.version_etag %r != state %r" % (turn, res_ver, ver1))
-            # snapshot cadence
+            # snapshot cadence: written this turn = the acting agent's file exists with a new identity
             should = (turn % eff["n"]) == 0
-            present = os.path.exists(snap_file)
+            present = snap_name in snaps1 and snaps1[snap_name] != snaps0.get(snap_name)
             if should != present:
                 bad("cadence", "turn %d cadence n=%d: snapshot %s, expected %s" % (
                     turn, eff["n"], "written" if present else "not written", "written" if should else "not written"))
@@ -453,6 +649,15 @@ def run_history(case, scratch):
                 if _count_lines(os.path.join(ex.log_dir, "t4.jsonl")) != t4_lines0 + 1 or \
                         _count_lines(os.path.join(ex.log_dir, "apply.jsonl")) != ap_lines0 + 1:
                     bad("records", "turn %d committed but t4/apply records not emitted exactly once" % turn)
+            # store contents after the turn = contents before + the deltas the store accepted during it
+            if calls_ok:
+                expw_t = dict(w0)
+                for _t, k in store.applied[napplied0:]:
+                    kk = tuple(k.split(":"))
+                    expw_t[kk] = expw_t.get(kk, 0.0) + _DELTA_OF[k]
+                if store.w != expw_t:
+                    bad("store-content", "turn %d (agent %s) store weights %r, expected contents before the turn + accepted deltas = %r" % (
+                        turn, agent, sorted(store.w.items()), sorted(expw_t.items())))
         cap["cls"] = None
         # never applied twice
         seen = set()
@@ -462,7 +667,8 @@ def run_history(case, scratch):
             seen.add((t, k))
         # store content = sum of successfully applied deltas
         expw = {}
-        for turn, (kind, ids, plan) in ((id0 + i * stride, h) for i, h in enumerate(hist)):
+        for h in hist:
+            kind, ids, plan, _opt = _letter(h)
             if kind != "commit":
                 continue
             for i in ids:
@@ -474,35 +680,76 @@ def run_history(case, scratch):
                     expw[k] = expw.get(k, 0.0) + float(d.delta)
         if not out and store.w != expw:
             bad("store-content", "store weights %r, expected %r" % (sorted(store.w.items()), sorted(expw.items())))
-        return out, (state.get("version_etag"), tuple(sorted((k[1], v) for k, v in store.w.items())), len(store.calls))
+        return out, (state.get("version_etag"), tuple(sorted((k[1], v) for k, v in store.w.items())), len(store.calls)), \
+            [list(c) for c in store.xcalls]
     finally:
         orch_core.t4_filter = old_t4
         ex.close()
+
+
+def _record(case, res, final, st: Stats):
+    n = len(case["history"])
+    sett = case["settings"]
+    st.add("transitions", n)
+    st.add("validated", n)
+    st.add("histories")
+    opts = [_letter(h)[3] for h in case["history"]]
+    agents = tuple(str(o.get("agent") or "A") for o in opts)
+    xf = tuple(json.dumps(o.get("xf")) for o in opts) if any("xf" in o for o in opts) else ()
+    extra = ()
+    if sett.get("store") or sett.get("boot") or xf:
+        extra = (sett.get("store"), sett.get("boot"), agents, xf)
+    st.distinct("states", (case["entry"], final, sett["n"], sett["bust"], sett["ns"], tuple(sett.get("absent") or ())) + extra)
+    if sett.get("absent"):
+        st.add("histories_key_absent")
+    if any(h[2][0] == "noapi" for h in case["history"]):
+        st.add("histories_store_capability")
+    if sett.get("boot") == "live":
+        st.add("histories_agents")
+        if len(set(agents)) > 1:
+            st.add("histories_agents_multi")
+    if xf:
+        st.add("histories_store_call_fault")
+    if any(h[2][0] in ("batchfail", "noapi") or h[0] == "kill" for h in case["history"]) or xf or len(set(agents)) > 1:
+        st.add("nontrivial")
+    st.distinct("outcomes", (case["entry"], final[0], final[2], tuple(sorted(s for s, _ in res))) + ((bool(xf),) if xf else ()))
+    for sig, what in res:
+        st.violation(sig, what, case)
 
 
 def _worker(chunk, st: Stats, scratch):
     import logging
     logging.disable(logging.CRITICAL)
     for case in chunk:
-        res, final = run_history(case, scratch)
-        n = len(case["history"])
-        st.add("transitions", n)
-        st.add("validated", n)
-        st.add("histories")
-        st.distinct("states", (case["entry"], final, case["settings"]["n"], case["settings"]["bust"], case["settings"]["ns"],
-                               tuple(case["settings"].get("absent") or ())))
-        if case["settings"].get("absent"):
-            st.add("histories_key_absent")
-        if any(h[2][0] == "noapi" for h in case["history"]):
-            st.add("histories_store_capability")
-        if any(h[2][0] in ("batchfail", "noapi") or h[0] == "kill" for h in case["history"]):
-            st.add("nontrivial")
-        st.distinct("outcomes", (case["entry"], final[0], final[2], tuple(sorted(s for s, _ in res))))
-        for sig, what in res:
-            st.violation(sig, what, case)
+        derive = case.get("derive")
+        if derive:
+            case = {k: v for k, v in case.items() if k != "derive"}
+        res, final, xcalls = run_history(case, scratch)
+        _record(case, res, final, st)
+        if derive != "xfaults":
+            continue
+        # fault points discovered on the fault-free run: (turn index, number of the store call within the turn)
+        id0, stride = case["settings"].get("ids", [1, 1])
+        points = sorted({((c[0] - id0) // stride, c[2]) for c in xcalls})
+        for c in xcalls:
+            st.distinct("store_calls_in_apply_phase", c[1])
+        plans = [[(i, k)] for i, k in points]
+        if len(points) > 1:
+            plans.append("all")
+        for pl in plans:
+            hist = []
+            for i, h in enumerate(case["history"]):
+                kind, ids, plan, opt = _letter(h)
+                ks = "all" if pl == "all" else [k for (j, k) in pl if j == i]
+                hist.append([kind, ids, plan, dict(opt, xf=ks)] if ks else [kind, ids, plan] + ([opt] if opt else []))
+            sub = {"entry": case["entry"], "settings": case["settings"], "history": hist}
+            res2, final2, xcalls2 = run_history(sub, scratch)
+            _record(sub, res2, final2, st)
+            if not res2 and not any(c[3] for c in xcalls2):
+                raise HarnessError("scripted store-call fault did not fire: %s" % json.dumps(sub))
     if chunk:
-        st.sample(chunk[0])
-        st.sample(chunk[-1])
+        st.sample({k: v for k, v in chunk[0].items() if k != "derive"})
+        st.sample({k: v for k, v in chunk[-1].items() if k != "derive"})
 
 
 def cases(thorough):
@@ -545,6 +792,17 @@ def cases(thorough):
         for sett in cap_settings(entry, thorough):
             for h in hs:
                 out.append({"entry": entry, "settings": sett, "history": h})
+    # store export shape + faults of the other store calls (see xfault_*): base histories; the worker derives the faulted ones
+    for entry in ("direct", "turn"):
+        hs = list(xfault_histories(entry, thorough))
+        for sett in xfault_settings(entry, thorough):
+            for h in hs:
+                out.append({"entry": entry, "settings": sett, "history": h, "derive": "xfaults"})
+    # acting agent leg (see agent_*): run_turn only, the boot hook lives there
+    hs = list(agent_histories(thorough))
+    for sett in agent_settings(thorough):
+        for h in hs:
+            out.append({"entry": "turn", "settings": sett, "history": h})
     return out
 
 
@@ -561,15 +819,30 @@ def run(run: Run) -> None:
                 "non-callable apply_deltas | state's store is None%s) x approved in [],[d1,d2], every history of <=%d turns "
                 "over these letters + {clean commit, batch fault, partial per-delta fault, kill switch} holding >=1 such turn "
                 "x cadence{1,2,3} x bust x initial version x ctx shape on both entry points; "
-                "non-trivial = history with a store fault, a kill-switch turn or a turn whose store lacks the batch API"
+                "plus a store that offers export_state()/import_state() (the API the snapshot writer prefers over the .w view): "
+                "every history of <=%d turns over {%d letters} x cadence{1,2,3} x first turn id {1, n} on both entry points, "
+                "and for each of them every store method call other than apply_deltas the engine makes during the apply "
+                "phase (numbered per turn, discovered on the fault-free run) raising, one at a time and all at once; "
+                "plus acting agents: every history of <=%d run_turn turns over {commit [], commit [d1], partial per-delta "
+                "fault, kill switch} x every assignment of <=%d agent ids to the turns (up to renaming) sharing one state, "
+                "boot hook live, snapshots of earlier turns left in place, x cadence{1,2,3} x first turn id {1, n} x store "
+                "export shape {.w view, export_state}; "
+                "non-trivial = history with a store fault, a kill-switch turn, a turn whose store lacks the batch API or "
+                "turns of more than one agent"
                 % (3 if run.thorough else 2,
                    "every combination" if run.thorough else "each single key path + everything absent",
-                   " | state has no store key" if run.thorough else "", 3 if run.thorough else 2))
-    run.notes["histories_total"] = len(cs)
+                   " | state has no store key" if run.thorough else "", 3 if run.thorough else 2,
+                   3 if run.thorough else 2, len(xfault_alphabet("turn", run.thorough)),
+                   4 if run.thorough else 3, 3 if run.thorough else 2))
+    run.notes["histories_total"] = len(cs)   # enumerated up front; the store-call-fault histories are derived on top
     run.notes["key_presence_shapes"] = {e: len(absent_menu(e, run.thorough)) for e in ("direct", "turn")}
     run.notes["histories_key_absent"] = sum(1 for c in cs if c["settings"].get("absent"))
     run.notes["histories_store_capability"] = sum(1 for c in cs if any(h[2][0] == "noapi" for h in c["history"]))
     run.notes["store_capability_letters"] = {e: len(cap_alphabet(e, run.thorough)[1]) for e in ("direct", "turn")}
+    run.notes["histories_store_call_fault_base"] = sum(1 for c in cs if c.get("derive") == "xfaults")
+    run.notes["histories_agents"] = sum(1 for c in cs if c["settings"].get("boot") == "live")
+    run.notes["agent_sequences"] = sorted({"".join(_letter(h)[3].get("agent", "A") for h in c["history"])
+                                           for c in cs if c["settings"].get("boot") == "live"})
     run.pmap(_worker, cs, extra=(run.scratch,))
     run.assume("a t4 section lacking a key denotes the configuration configs.validate.validate_config normalises it to "
                "(documented defaults: namespaces [t2:semantic], snapshot every turn, T4 enabled); with cache_bust_mode "
@@ -581,14 +854,22 @@ def run(run: Run) -> None:
                "invalidated on such a turn is not (nothing was handed to a store); with store None the turn runs "
                "with no active graphs")
     run.assume("approved lists are given in canonical target order, as the meta-filter emits them")
-    run.assume("boot snapshot loading is disabled (state._boot_loaded) so the scripted initial version stands")
+    run.assume("outside the acting-agent leg boot snapshot loading is disabled (state._boot_loaded) and the acting agent's "
+               "snapshot file is removed before each turn; in the acting-agent leg the boot hook is live, the snapshot "
+               "directory is empty when the history starts (restoring from a previous process is C06/C20's subject) and "
+               "no file is removed")
+    run.assume("a raising store method other than apply_deltas is judged like the same turn without the fault (nothing "
+               "escapes, version +1, snapshot on cadence, records, call log); what the snapshot's store section holds "
+               "then is not judged; the apply phase of run_turn = from the meta-filter's verdict to the end of the turn; "
+               "the new legs pair a cfg-only context with cache_bust_mode none (cfg-only + on-apply is the listed finding "
+               "of the main legs)")
 
 
 def replay(case):
     import tempfile
     d = tempfile.mkdtemp(prefix="c04r", dir="/dev/shm" if os.path.isdir("/dev/shm") else None)
     try:
-        res, _ = run_history(case, d)
-        return res
+        case = {k: v for k, v in case.items() if k != "derive"}
+        return run_history(case, d)[0]
     finally:
         shutil.rmtree(d, ignore_errors=True)
